@@ -698,7 +698,18 @@ func main() {
 		fmt.Printf("VIOLATION property=%s replay=%s\n", property, path)
 		exit = 1
 	}
-	if len(infra) > 0 || len(vacuity) > 0 {
+	// A counter that stayed 0 means a scenario did not reach the state it was built for. On the unchanged tree that
+	// is a mistake in the scenario (VERIF_STRICT=1 makes it fatal, used while developing the checks); on an edited
+	// tree it may simply mean the edit moved the state elsewhere, which is no verdict about the property: it is
+	// reported, recorded in the evidence (exhaustive=false) and does not fail the run.
+	strict := os.Getenv("VERIF_STRICT") == "1"
+	if !strict && len(vacuity) > 0 {
+		for _, m := range vacuity {
+			fmt.Printf("VACUITY-WARNING %s\n", m)
+		}
+		exhaustive = false
+	}
+	if len(infra) > 0 || (strict && len(vacuity) > 0) {
 		seenMsg := map[string]bool{}
 		for _, m := range infra {
 			if len(m) > 1500 {
@@ -710,8 +721,10 @@ func main() {
 			seenMsg[m] = true
 			fmt.Printf("INFRA-ERROR %s\n", m)
 		}
-		for _, m := range vacuity {
-			fmt.Printf("INFRA-ERROR vacuous run: %s\n", m)
+		if strict {
+			for _, m := range vacuity {
+				fmt.Printf("INFRA-ERROR vacuous run: %s\n", m)
+			}
 		}
 		if exit == 0 {
 			exit = 2
@@ -746,6 +759,7 @@ func main() {
 			"engines":               keys(engines),
 			"race_pass":             racePass,
 			"assumption_failures":   raceReports,
+			"vacuity_warnings":      vacuity,
 		},
 		"assumptions": []string{
 			"interleavings are at the granularity of sync and sync/atomic operations (sequentially consistent); plain memory accesses are assumed race-free",
